@@ -13,7 +13,13 @@ def main():
     print("loaded in %.1fs" % s.load_s)
     prog = s.program()
     ent = s.pkgpath(hd) + "." + entry
-    r = Run(prog, ent, K=K, verbose=True, overrides={"time.After": s.pkgpath(hd) + ".verifTimeAfter"})
+    sys.path.insert(0, os.path.join(os.path.dirname(os.path.dirname(os.path.abspath(__file__))), "checks"))
+    import common
+    ov = {"time.After": s.pkgpath(hd) + ".verifTimeAfter"}
+    if hd == "root":
+        for k, v in common.STD.items():
+            ov[k] = s.pkgpath(hd) + "." + v
+    r = Run(prog, ent, K=K, verbose=True, overrides=ov)
     t0 = time.time()
     r.execute()
     m = r.m
